@@ -51,16 +51,18 @@ FullNodes ==
     NC("Mul", "factor", NullCfg), NC("MulDef", "factor", NullCfg), N0("IncIP"),
     NK("CtxBind", "", "b"), NK("CtxBind", "", "w"),                          \* context-key-bound context processor
     Node("Rename", [x \in {"a"} |-> 5], "a", "b", <<>>), Node("Delete", [x \in {"a"} |-> 5], "a", "", <<>>),   \* key given in the node configuration           \* parameter configured as null     \* context-writing element: plain, swept, sliced
-    Node("ProbeP", [x \in {"factor"} |-> 4], "factor", "", <<>>) }
+    Node("ProbeP", [x \in {"factor"} |-> 4], "factor", "", <<>>),
+    N0("MulKw"), NC("MulKw", "factor", 4), N0("MulKwReq"),
+    NK("FitM", "", "b"), NK("FitM", "", "") }                                \* variable-mapped model fitting (bound / default output key)                   \* keyword-only parameters
 
 \* focus sets: fewer instances, longer programs
 FeedNodes ==   \* parameter feeding
-  { NC("Src", "value", 6), N0("MulDef"), N0("Mul"), N0("Add"), NK("Probe", "factor", ""), N0("IncIP"),
+  { NC("Src", "value", 6), N0("MulDef"), N0("Mul"), N0("Add"), NK("Probe", "factor", ""), N0("IncIP"), N0("MulKw"),
     NK("Rename", "factor", "addend"), NK("Delete", "factor", ""), N0("Sq") }
 SliceNodes ==  \* slicers and sweeps
   { NS("SweepSrc", <<1, 2>>), N0("SliceMulDef"), N0("SliceMul"), NK("SliceProbe", "factor", ""),
     NK("SliceProbe", "a", ""), N0("Sum"), N0("MulDef"), NK("SweepSrcCtx", "a", ""), NS("SweepMul", <<2, 3>>),
-    NS("SweepCtxW", <<2, 3>>), N0("SliceCtxW") }
+    NS("SweepCtxW", <<2, 3>>), N0("SliceCtxW"), NK("FitM", "", "factor") }
 CtxNodes ==    \* context processors
   { N0("Src0"), NK("Rename", "a", "b"), NK("Rename", "b", "a"), NK("Delete", "a", ""),
     NK("Template", "a", "b"), NK("Probe", "a", ""), N0("CtxW"), NK("Rename", "w", "a"), NK("CtxBind", "", "b"),
